@@ -19,7 +19,7 @@ INFO = dict(
         quick="one HTTPS configuration family (http-get: static header + metadata/base64/prepend/header, http-post: id parameter + "
         "output print, server output: print/base64/prepend 3) whose prepend argument (2 bytes), User-Agent tail (2 bytes) and recover "
         "prepend/append shape are symbolic or enumerated; every ordered pair of operations from {4 view accesses, C2Http with AES+HMAC "
-        "keys, with AES random, with the RSA private key, profile generation, client dry run, get transform+recover, response "
+        "keys, with AES random, with the RSA private key, profile generation, client dry run, get / post / response "
         "transform+recover}: after each operation the deep snapshot of all views, settings_tuple and config_block is unchanged and the "
         "second operation's observable result equals its result on a fresh configuration",
         thorough="all ordered triples; three program families",
@@ -116,6 +116,13 @@ def op_get_roundtrip(cfg):
     return (freeze(req), freeze(back), c2http_summary(h))  # (no mask step in the get program: deterministic)
 
 
+def op_post_roundtrip(cfg):
+    h = call(c2.C2Http, cfg, aes_key=KEY, hmac_key=HKEY)
+    req = call(I.getattr(h.transform_submit, "transform"), c2.ClientC2Data(id=b"4242", output=b"\x00\x00\x00\x04data"))
+    back = call(I.getattr(h.transform_submit, "recover"), req)
+    return (freeze(req), freeze(back), c2http_summary(h))
+
+
 def op_response_roundtrip(cfg):
     h = call(c2.C2Http, cfg, aes_key=KEY, hmac_key=HKEY)
     req = call(I.getattr(h.transform_response, "transform"), c2.C2Data(output=b"task-data-0123"))
@@ -129,14 +136,14 @@ OPS = {
     "settings": op_view("settings"), "settings_by_index": op_view("settings_by_index"), "raw_settings": op_view("raw_settings"),
     "raw_settings_by_index": op_view("raw_settings_by_index"),
     "C2Http(aes+hmac)": op_c2http("aes"), "C2Http(aes_rand)": op_c2http("rand"), "C2Http(rsa)": op_c2http("rsa"),
-    "profile": op_profile, "client dry run": op_client, "get transform/recover": op_get_roundtrip,
+    "profile": op_profile, "client dry run": op_client, "get transform/recover": op_get_roundtrip, "post transform/recover": op_post_roundtrip,
     "response transform/recover": op_response_roundtrip,
 }
 
 
 def make_block(ctx, family):
     arg = sym_bytes("prepend_arg", 2)
-    ua = sym_bytes("ua_tail", 2)
+    ua = sym_bytes("ua_tail", 2) if family != 4 else SymBytes(list(b"ok"))
     for c in ua.cells:
         if isinstance(c, int):
             if not 0x20 <= c <= 0x7E:
@@ -147,8 +154,11 @@ def make_block(ctx, family):
     post = [("_HEADER", b"Content-Type: application/octet-stream"), ("BUILD", "id"), ("PARAMETER", b"id"), ("BUILD", "output"), ("PRINT", True)]
     recover = {0: [("print", True), ("base64", True), ("prepend", 3)],
                1: [("print", True), ("append", 0), ("mask", True)],
-               2: [("print", True)], 3: [("print", True)]}[family]
-    cells = CB.http_config(get=get, post=post, recover=recover, ua=SymBytes(list(b"Mozilla/5.0 ") + ua.cells))
+               2: [("print", True)], 3: [("print", True)], 4: [("print", True)]}[family]
+    # BeaconGate vector: Core and Cleanup complete, Comms off -> the pretty value is the (not alphabetically ordered) list ['Core', 'Cleanup']
+    gate_fields = [f.name for f in beacon.BeaconGateOptions.__fields__]
+    gate = [0 if n in ("InternetOpenA", "InternetConnectA") else 1 for n in gate_fields]
+    cells = CB.http_config(get=get, post=post, recover=recover, ua=SymBytes(list(b"Mozilla/5.0 ") + ua.cells), extra=((78, CB.PTR, gate),) if family == 4 else ())
     if family == 3:
         # a block in which setting indices occur twice (the library accepts it; the later record wins): one duplicate pair early in
         # the block, one at its end
@@ -164,15 +174,22 @@ def h_history(names, family):
             MC.new_env()  # one table of uninterpreted-function applications per path
         cells = make_block(ctx, family)
         block = V.unwrap(SymBytes(cells))
+        # reference results: every operation of the history on its OWN freshly parsed configuration, taken BEFORE the history runs
+        # (a result that depends on what was done before — through the configuration object or through any state shared between
+        # decoders / transforms — then differs from its reference)
+        refs = [None] * len(names)
+        for k in reversed(range(len(names))):  # (last operation first: its reference is taken in a state no earlier operation has touched)
+            refs[k] = OPS[names[k]](call(BeaconConfig, block))
         cfg = call(BeaconConfig, block)
         s0 = snapshot(cfg)
         for k, name in enumerate(names):
             res = OPS[name](cfg)
             s1 = snapshot(cfg)
             ctx.prove(deep_eq(s0, s1), "configuration unchanged after %s (history %s)" % (name, " ; ".join(names[:k + 1])))
+            ctx.prove(deep_eq(res, refs[k]), "%s gives the same result as on a fresh configuration (history %s)" % (name, " ; ".join(names[:k + 1])))
             fresh = call(BeaconConfig, block)
             ref = OPS[name](fresh)
-            ctx.prove(deep_eq(res, ref), "%s gives the same result as on a fresh configuration (history %s)" % (name, " ; ".join(names[:k + 1])))
+            ctx.prove(deep_eq(ref, refs[k]), "%s on a fresh configuration gives the same result before and after the history (%s)" % (name, " ; ".join(names[:k + 1])))
     return body
 
 
@@ -208,6 +225,10 @@ def instances(tier):
     dup_ops = ["settings", "settings_by_index", "raw_settings", "raw_settings_by_index", "C2Http(aes+hmac)", "profile"]
     for a, b in itertools.product(dup_ops if q else names, repeat=2):
         out.append(Instance("pair %s ; %s duplicate-index block" % (a, b), h_history((a, b), 3), dict(kind="history", ops=[a, b], family=3)))
+    gate_ops = ["settings", "settings_by_index", "profile", "C2Http(aes+hmac)"]
+    for a, b in itertools.product(gate_ops, repeat=2):
+        if "profile" in (a, b):
+            out.append(Instance("pair %s ; %s BeaconGate block" % (a, b), h_history((a, b), 4), dict(kind="history", ops=[a, b], family=4)))
     if not q:
         for fam in (1, 2):
             for a, b in itertools.product(names, repeat=2):
